@@ -469,7 +469,13 @@ def apply_rws(sf, ed, spec, lo_rw, hi_rw, arms=()):
             raise ExtractError('%s: rewrite %s `%s` matches %d sites, expected %d (shape change)'
                                % (spec.path, tag, orig, len(hits), count))
         if which is not None:
-            hits = [hits[which - 1]]
+            # `k/N`: the k-th match; `k+/N`: the k-th and every later match (none is fine); N may be `*`
+            if which.endswith('+'):
+                hits = hits[int(which[:-1]) - 1:]
+            else:
+                if int(which) > len(hits):
+                    raise ExtractError('%s: rewrite %s `%s` has %d sites, no site number %s (shape change)' % (spec.path, tag, orig, len(hits), which))
+                hits = [hits[int(which) - 1]]
         for h in hits:
             h1 = h + len(texts) - 1
             inside = [a for a in arms if a['b0'] <= h and h1 <= a['b1']]
@@ -706,7 +712,7 @@ def emit_open(path, log):
 
 
 DIRECTIVE = re.compile(r'^\s*//@\s?(.*)$')
-RW_RE = re.compile(r'^rw\s+(\w+)\s+(?:(\d+)/)?(\d+|\*)\s+<<(.*?)>>\s*=>\s*<<(.*?)>>\s*$')
+RW_RE = re.compile(r'^rw\s+(\w+)\s+(?:(\d+\+?)/)?(\d+|\*)\s+<<(.*?)>>\s*=>\s*<<(.*?)>>\s*$')
 
 
 def parse_opts(words):
@@ -923,7 +929,7 @@ def expand_fragment(frag_name, text, out_lines, regions, log, vacuity=False):
                         mr = RW_RE.match(d2)
                         if not mr:
                             raise ExtractError('%s: bad rw directive: %s' % (frag_name, d2))
-                        spec.rws.append((mr.group(1), (None if mr.group(3) == '*' else int(mr.group(3))), mr.group(4), mr.group(5), int(mr.group(2)) if mr.group(2) else None))
+                        spec.rws.append((mr.group(1), (None if mr.group(3) == '*' else int(mr.group(3))), mr.group(4), mr.group(5), mr.group(2)))
                     else:
                         raise ExtractError('%s: unknown item directive: %s' % (frag_name, d2))
                 else:
